@@ -146,3 +146,55 @@ impl<K, N, E> Node<K, N, E> {
     { unimplemented!() }
 }
 //@endif
+
+// further read-only node API, so that code calling it stays inside the verified dialect
+// (specified from the heap-world contracts of the same functions)
+pub open spec fn first_to<K, N, E>(s: Seq<Edge<K, N, E>>, k: K, by_source: bool) -> int
+    decreases s.len()
+{
+    if s.len() == 0 { -1 } else if (if by_source { s[0].0.k() } else { s[0].1.k() }) == k { 0 } else {
+        let r = first_to(s.drop_first(), k, by_source); if r < 0 { -1 } else { r + 1 }
+    }
+}
+impl<K, N, E> Node<K, N, E> {
+//@if dg,sdg
+    #[verifier::external_body]
+    pub fn find_outbound(&self, other: &K) -> (r: Option<Node<K, N, E>>)
+        ensures r.is_some() <==> first_to(self.outs(), *other, false) >= 0,
+            r.is_some() ==> r.unwrap() == self.outs()[first_to(self.outs(), *other, false)].1,
+    { unimplemented!() }
+    #[verifier::external_body]
+    pub fn find_inbound(&self, other: &K) -> (r: Option<Node<K, N, E>>)
+        ensures r.is_some() <==> first_to(self.ins(), *other, true) >= 0,
+            r.is_some() ==> r.unwrap() == self.ins()[first_to(self.ins(), *other, true)].0,
+    { unimplemented!() }
+    #[verifier::external_body]
+    pub fn is_connected(&self, other: &K) -> (r: bool)
+        ensures r == (first_to(self.outs(), *other, false) >= 0)
+    { unimplemented!() }
+    #[verifier::external_body]
+    pub fn out_degree(&self) -> (r: usize) ensures r == self.outs().len() { unimplemented!() }
+    #[verifier::external_body]
+    pub fn in_degree(&self) -> (r: usize) ensures r == self.ins().len() { unimplemented!() }
+    #[verifier::external_body]
+    pub fn is_root(&self) -> (r: bool) ensures r == (self.ins().len() == 0) { unimplemented!() }
+    #[verifier::external_body]
+    pub fn is_leaf(&self) -> (r: bool) ensures r == (self.outs().len() == 0) { unimplemented!() }
+    #[verifier::external_body]
+    pub fn is_orphan(&self) -> (r: bool) ensures r == (self.ins().len() == 0 && self.outs().len() == 0) { unimplemented!() }
+//@else
+    #[verifier::external_body]
+    pub fn find_adjacent(&self, other: &K) -> (r: Option<Node<K, N, E>>)
+        ensures r.is_some() <==> first_to(self.adjs(), *other, false) >= 0,
+            r.is_some() ==> r.unwrap().k() == *other,
+    { unimplemented!() }
+    #[verifier::external_body]
+    pub fn is_connected(&self, other: &K) -> (r: bool)
+        ensures r == (first_to(self.adjs(), *other, false) >= 0)
+    { unimplemented!() }
+    #[verifier::external_body]
+    pub fn degree(&self) -> (r: usize) ensures r == self.adjs().len() { unimplemented!() }
+    #[verifier::external_body]
+    pub fn is_orphan(&self) -> (r: bool) ensures r == (self.adjs().len() == 0) { unimplemented!() }
+//@endif
+}
